@@ -1,0 +1,44 @@
+//go:build verif
+
+package bebop
+
+import (
+	"errors"
+	"fmt"
+	"io"
+	"strings"
+)
+
+// VerifNextDump exposes the tokenizer to the verification harness in /verif: it runs n successive Next() calls on r and
+// reports, one line per call, whether a token was produced, its kind and bytes, and the kinds of the errors accumulated
+// so far. It is compiled only under the "verif" build tag and touches no existing code.
+func VerifNextDump(r io.Reader, n int) (out string) {
+	defer func() {
+		if rec := recover(); rec != nil {
+			out += "PANIC\n"
+		}
+	}()
+	tr := newTokenReader(r)
+	for i := 0; i < n; i++ {
+		ok := tr.Next()
+		ks := []string{}
+		for _, e := range tr.errs {
+			switch {
+			case errors.Is(e, io.EOF):
+				ks = append(ks, "EOF")
+			case errors.Is(e, io.ErrUnexpectedEOF):
+				ks = append(ks, "UEOF")
+			case strings.Contains(e.Error(), "verif-injected"):
+				ks = append(ks, "IO")
+			default:
+				ks = append(ks, "OTHER")
+			}
+		}
+		if ok {
+			out += fmt.Sprintf("T %d %x [%s]\n", tr.nextToken.kind, tr.nextToken.concrete, strings.Join(ks, ","))
+		} else {
+			out += fmt.Sprintf("F [%s]\n", strings.Join(ks, ","))
+		}
+	}
+	return out
+}
